@@ -3,7 +3,8 @@ from props.apu_common import *
 
 ID = 'C19'
 PROP_FILE = 'Properties/C19.v'
-RULE = ('channel-1 triggers with every class of sweep register (period, direction, shift) at frequencies around the overflow '
+RULE = ('channel 1 with the sweep unit running over several 128 Hz sweep clocks at frequencies where one or two steps fit '
+        'and the next overflows (NR52 after every cycle, judged against the documented sweep algorithm); channel-1 triggers with every class of sweep register (period, direction, shift) at frequencies around the overflow '
         'boundary f + (f >> shift) = 2048, NR52 read right after the trigger; random schedules of length writes (NRx1), DAC on/off (NRx2/NR30), NRx4 writes with/without trigger and '
         'length enable, NR10 sweep writes, power toggles, at every frame-sequencer phase: the gaps between operations '
         'are drawn from {1..8, 2047, 2048, 2049, 4095, 4096, 4097, 16384, random} machine cycles and some cases start '
@@ -85,9 +86,60 @@ def sweep_overflows(nr10, f):
     return shift != 0 and not negate and f + (f >> shift) > 2047
 
 
+def sweep_run(nr10, f, run):
+    """channel 1 triggered once, then the sweep unit runs for several 128 Hz sweep clocks; NR52 after every cycle"""
+    return [w(NR12, 0xF0), w(NR10, nr10), w(NR13, f & 0xFF), w(NR14, 0x80 | (f >> 8)), cyc(run)]
+
+
+def sweep_off_cycle(nr10, f, run):
+    """documented sweep unit from a fresh APU (sequencer index 0 at cycle 0, a step every 2048 machine cycles, sweep
+    clocked on steps 2 and 6): the machine cycle in which channel 1 is switched off, or None"""
+    period, negate, shift = (nr10 >> 4) & 7, nr10 & 8, nr10 & 7
+
+    def calc(x):
+        return x - (x >> shift) if negate else x + (x >> shift)
+    if shift and calc(f) > 2047:
+        return 0
+    if not (period or shift):
+        return None
+    timer = period or 8
+    shadow = f
+    step = 0
+    cycle = 0
+    while True:
+        cycle += 2048
+        if cycle > run:
+            return None
+        if step % 4 == 2:
+            timer -= 1
+            if timer == 0:
+                timer = period or 8
+                if period:
+                    nf = calc(shadow)
+                    if nf > 2047:
+                        return cycle
+                    if shift:
+                        shadow = nf
+                        if calc(nf) > 2047:
+                            return cycle
+        step = (step + 1) % 8
+
+
 def generate(rng, tier):
     cases = []
     nd = 0
+    # channel 1: the sweep unit left running over several sweep clocks, at frequencies where one (or two) steps fit
+    # and the next would overflow (the overflow re-check with the new frequency switches the channel off at once)
+    nrun = 0
+    runs = [(0x11, 0x400), (0x12, 0x500), (0x23, 0x6A0), (0x11, 0x300), (0x21, 0x3FF), (0x13, 0x600), (0x32, 0x520),
+            (0x1A, 0x7FF), (0x14, 0x70F)]
+    if tier != 'quick':
+        runs += [(p << 4 | sh, f) for p in (1, 2, 3, 7) for sh in range(1, 8) for f in (0x200, 0x3F0, 0x555, 0x6A0, 0x780)]
+    for nr10, f in runs:
+        period = (nr10 >> 4) & 7
+        run = 8192 * period * 4 + 7000
+        cases.append(('v%02X_%03X_%d' % (nr10, f, run), sweep_run(nr10, f, run)))
+        nrun += 1
     # channel 1: the frequency calculation a trigger performs when the sweep shift is non-zero
     nsw = 0
     for nr10 in ([0x11, 0x13, 0x17, 0x71, 0x01, 0x19, 0x77, 0x10] if tier == 'quick' else
@@ -116,9 +168,9 @@ def generate(rng, tier):
     for k in range(nr):
         cases.append(('r%d' % k, schedule(rng, rng.randrange(8, 40))))
     info = dict(exhaustive=False,
-                input_distribution=dict(directed_expiry_cases=nd, sweep_trigger_cases=nsw, random_schedules=nr,
+                input_distribution=dict(directed_expiry_cases=nd, sweep_trigger_cases=nsw, sweep_run_cases=nrun, random_schedules=nr,
                                         ops_total=sum(len(c[1]) for c in cases)),
-                samples=[dict(case=cases[nsw + 1 + nd][0], script=cases[nsw + 1 + nd][1][:14] + ['...'])])
+                samples=[dict(case=cases[nrun + nsw + 1 + nd][0], script=cases[nrun + nsw + 1 + nd][1][:14] + ['...'])])
     return cases, info
 
 
@@ -148,6 +200,25 @@ def extra(check, impl_cases, model_cases, cases):
     half; length clocks are 4096 machine cycles apart."""
     out = []
     for cid, lines in cases:
+        if cid.startswith('v') and cid.count('_') == 2:
+            impl = impl_cases.get(cid)
+            if not impl:
+                continue
+            nr10, f, run = int(cid[1:3], 16), int(cid[4:7], 16), int(cid.split('_')[2])
+            off = sweep_off_cycle(nr10, f, run)
+            on_cycles = 0
+            for v, k in parse_rle(impl[-1].split()[1]):
+                if int(v) & 1:
+                    on_cycles += k
+                else:
+                    break
+            want = run if off is None else max(off - 1, 0)
+            if on_cycles != want:
+                out.append(dict(case=cid, script=lines, impl=impl, model=model_cases.get(cid),
+                                verdict='implementation violates the statement directly: channel 1 with NR10=%02X, '
+                                        'f=%03X: status bit on for %d machine cycles, the documented sweep unit '
+                                        'switches it off after %s' % (nr10, f, on_cycles, want)))
+            continue
         if cid.startswith('w') and cid.count('_') == 1:
             impl = impl_cases.get(cid)
             if not impl:
